@@ -35,13 +35,22 @@ theorem C25_sort_commutes (f : Nat → Nat) (childPaths : List Nat) (h : OrderPr
     sortKeys (childPaths.map f) = (sortKeys childPaths).map f :=
   sortKeys_map_of_orderPreserving f childPaths h
 
-/-- what holds: when the substitution keeps the order of the child's keys, composing the index lists
-selects the query generated for that selection at that position -/
+/-- what holds: when the substitution keeps the (strict) order of the child's keys, composing the
+index lists selects the query generated for that selection at that position -/
 theorem C25_partial (parentPaths : List Nat) (f : Nat → Nat) (childPaths : List Nat) (σ : Nat)
-    (hσ : σ ∈ childPaths) (hop : OrderPreserving f childPaths)
+    (hσ : σ ∈ childPaths) (hop : OrderPreserving f childPaths) (hnd : childPaths.Nodup)
     (hsub : ∀ k ∈ childPaths, f k ∈ parentPaths) :
     selectedKey parentPaths f childPaths σ = some (f σ) :=
-  selectedKey_of_orderPreserving' parentPaths f childPaths σ hσ hop hsub
+  selectedKey_of_orderPreserving parentPaths f childPaths σ hσ hop hnd hsub
+
+/-- a second way to leave the envelope: two keys of the child that BECOME EQUAL under the substitution
+(`items(only: $n)` with `n = 100` next to `items(only: 100)`): the parent hands down one index for
+both, the child's second index is out of range (read.ts throws) -/
+theorem C25_witness_keys_merge : ¬ C25_statement := by
+  intro h
+  have := h [5] (fun _ => 5) [0, 1] 1 (by decide) (by decide)
+  rw [selectedKey_witness_merge] at this
+  cases this
 
 example : OrderPreserving (fun k => k + 5) [0, 1, 2] := by
   intro a ha b hb hab
@@ -53,5 +62,8 @@ example : selectedKey [9, 7, 5, 6, 3] (fun k => k + 5) [0, 1, 2] 1 = some 6 := b
 /-- the witness is outside the envelope of `C25_partial` -/
 theorem C25_witness_not_order_preserving : ¬ OrderPreserving (fun k => 1 - k) [0, 1] :=
   witness_not_orderPreserving
+
+theorem C25_witness_merge_not_order_preserving : ¬ OrderPreserving (fun _ => 5) [0, 1] :=
+  witness_merge_not_orderPreserving
 
 end IsoVerif.Props.C25
